@@ -6,7 +6,11 @@
     tools/c09.py (corr/C09corr.v).  Statements about "between" are written with
     the trace cut into pieces ([A ++ e :: B ++ ...]).  What a request gets when
     no target can be claimed (503) is the response mapping of C02's view; the
-    probe cadence is checked as a monitor only (corr/C09corr.c09_cadence). *)
+    probe cadence is checked as a monitor only (corr/C09corr.c09_cadence).
+    Balancers restored by a restart ([KRestored], model/M5lb.v) are ordinary
+    balancers here: every theorem below holds for them as stated; what is
+    special about them (presumed healthy until the first probe, rotation = all
+    targets at the restore) is in props/C01restore.v. *)
 From KP Require Import model.Base model.Trace model.M5lb proofs.M5lbFacts proofs.M5lbHist proofs.M5lbC01 proofs.M5lbC09
   corr.C01corr corr.C09corr proofs.M5lbMon.
 Local Open Scope nat_scope.
